@@ -285,26 +285,75 @@ class Impl:
         return "ok"
 
     def cmd_peek(self, ts):
-        """A look-ahead: the request is tried on a deep copy of the dispatcher (as a lookahead rule or filter would); the original
-        must not notice."""
+        """A look-ahead: the request is tried on a copy of the dispatcher (deep copy, or a pickle round trip - as a lookahead rule, a
+        rollout or a checkpoint would); the copy must be a faithful dispatcher of its own and the original must not notice."""
+        import pickle
+        import oracles
         j, p = int(ts[0]), int(ts[1])
         m = None if ts[2] == "none" else int(ts[2])
-        try:
-            twin = copy.deepcopy(self.dispatcher)
-        except Exception as e:  # pylint: disable=broad-except
-            return f"deepcopy-raised {type(e).__name__}"
+        self._peeks = getattr(self, "_peeks", 0) + 1
+        twin = None
+        if self._peeks % 3 == 0:
+            try:
+                twin = pickle.loads(pickle.dumps(self.dispatcher))
+            except Exception:  # pylint: disable=broad-except
+                twin = None         # (composite filters are closures, user observers may be local classes: not picklable - no claim made)
+        if twin is None:
+            try:
+                twin = copy.deepcopy(self.dispatcher)
+            except Exception as e:  # pylint: disable=broad-except
+                return f"copy-raised {type(e).__name__}"
+        # the copy's bookkeeping is what ITS schedule implies
+        t = oracles.derive_tracking(twin.instance, twin.schedule.schedule)
+        if list(twin.machine_next_available_time) != t["mach_next"] or list(twin.job_next_operation_index) != t["job_idx"] or \
+                list(twin.job_next_available_time) != t["job_next"]:
+            return (f"copy-inconsistent tracking machine {list(twin.machine_next_available_time)} job-index "
+                    f"{list(twin.job_next_operation_index)} job {list(twin.job_next_available_time)} but its schedule implies "
+                    f"{t['mach_next']} {t['job_idx']} {t['job_next']}")
         if j >= len(twin.instance.jobs) or p >= len(twin.instance.jobs[j]):
             return "raise"              # no such operation: nothing to try
-        op = twin.instance.jobs[j][p]
+        # the request names the operation either by the copy's own object or by the ORIGINAL's (equal, distinct) object
+        op = twin.instance.jobs[j][p] if self._peeks % 2 else self.instance.jobs[j][p]
         try:
             twin.dispatch(op, m)
         except Exception:  # pylint: disable=broad-except
             return "raise"
+        # the copy goes on being queried (its answers are its own), then the original is used again
+        v = oracles.View(twin.instance, twin.schedule.schedule)
+        ft = self.filter_tokens
+        ids_ = lambda ops: sorted(o.operation_id for o in ops)  # noqa: E731
+        for name, got, want in (("current_time()", twin.current_time(), v.now(ft)),
+                                ("completed_operations()", ids_(twin.completed_operations()),
+                                 sorted(set(v.sop) - {x.operation.operation_id for x in v.ongoing(ft)})),
+                                ("unscheduled_operations()", ids_(twin.unscheduled_operations()), ids_(v.unscheduled())),
+                                ("available_operations()", ids_(twin.available_operations()), ids_(v.available(ft)))):
+            if got != want:
+                return f"copy-inconsistent {name} = {got} but the copy's schedule implies {want}"
         for ms in twin.schedule.schedule:
             for x in ms:
                 if x.operation.operation_id == op.operation_id:
                     return f"ok {x.start_time}"
         return "ok ?"
+
+    def cmd_badseq(self, ts):
+        """Elsewhere in the process a schedule is rebuilt from job sequences that admit none (a job appears twice on a machine, a job
+        is missing, a cyclic order): a validation error - and nothing else."""
+        inst = self.instance
+        if inst.is_flexible or inst.num_operations == 0:
+            return "raise"
+        by_machine = [[op.job_id for op in ops] for ops in inst.operations_by_machine]
+        self._badseq = getattr(self, "_badseq", 0) + 1
+        bad = [list(reversed(row)) for row in by_machine]            # the reverse of a valid order is cyclic unless trivial
+        if self._badseq % 2 and any(len(r) for r in bad):
+            k = next(i for i, r in enumerate(bad) if r)
+            bad[k] = bad[k] + bad[k][:1]                               # a job twice on one machine
+        elif all(len(job) <= 1 for job in inst.jobs):
+            bad = [row[:-1] for row in by_machine]                     # nothing cyclic possible: a job is missing instead
+        try:
+            jsl.Schedule.from_job_sequences(inst, bad)
+        except Exception:  # pylint: disable=broad-except
+            return "raise"
+        return "raise"      # (an order that happens to admit a schedule after all: no claim either way)
 
     def cmd_xform(self, ts):
         """Instance transformations (they return NEW instances) are applied to the instance under test; results are dropped."""
